@@ -135,8 +135,25 @@ fn compare<K: SimKernel<D>, const D: usize>(dt: &Dt<K, D>, s: &Snap, stale: &[u6
         let vk = vkey(v.key);
         let want = star.get(&v.key).cloned().unwrap_or_default();
         let got: BTreeSet<u64> = tri.adjacent_cells(vk).map(|k| k.data().as_ffi()).collect();
+        // is the star of v facet-connected (cells linked through shared facets that contain v)?
+        let star_shape = {
+            let cells: Vec<&crate::snap::SCell> = s.cells.iter().filter(|c| want.contains(&c.key)).collect();
+            let mut seen: BTreeSet<u64> = BTreeSet::new();
+            let mut stack: Vec<&crate::snap::SCell> = cells.first().copied().into_iter().collect();
+            while let Some(c) = stack.pop() {
+                if !seen.insert(c.key) {
+                    continue;
+                }
+                for o in &cells {
+                    if !seen.contains(&o.key) && o.verts.iter().filter(|x| c.verts.contains(x)).count() == c.verts.len() - 1 {
+                        stack.push(o);
+                    }
+                }
+            }
+            if seen.len() == cells.len() { "connected" } else { "pinched" }
+        };
         if got != want {
-            fail("adjacent_cells", format!("vertex {:#x}: {} cells vs enumeration {}", v.key, got.len(), want.len()));
+            fail(&format!("adjacent_cells|star={star_shape}"), format!("vertex {:#x}: {} cells vs enumeration {}", v.key, got.len(), want.len()));
         }
         let wante = vedges.get(&v.key).cloned().unwrap_or_default();
         let gote: BTreeSet<(u64, u64)> = dt
@@ -147,7 +164,7 @@ fn compare<K: SimKernel<D>, const D: usize>(dt: &Dt<K, D>, s: &Snap, stale: &[u6
             })
             .collect();
         if gote != wante || tri.number_of_incident_edges(vk) != wante.len() {
-            fail("incident_edges", format!("vertex {:#x}: {} vs enumeration {}", v.key, gote.len(), wante.len()));
+            fail(&format!("incident_edges|star={star_shape}"), format!("vertex {:#x}: {} vs enumeration {}", v.key, gote.len(), wante.len()));
         }
         if let Some(ix) = &index {
             let g2: BTreeSet<u64> = tri.adjacent_cells_with_index(ix, vk).map(|k| k.data().as_ffi()).collect();
@@ -224,6 +241,19 @@ impl<K: SimKernel<D>, const D: usize> Monitor<K, D> for C15 {
         if !rep.ok() {
             ctx.stats.bump("c15.state_not_structurally_valid");
             return;
+        }
+        // The property quantifies over *valid* triangulations: the state must also satisfy the
+        // manifold level at the strength of its own guarantee (a vertex whose star is not
+        // facet-connected is legal for a pseudomanifold, and then judged, but it is an invalid
+        // state under the PL-manifold guarantees, where the star walk behind `adjacent_cells`
+        // and `incident_edges` is entitled to assume a connected star).
+        {
+            let mut l3 = refval::Report::default();
+            refval::level3(post, crate::monitors::valid::strength_of(post), true, &mut l3);
+            if !l3.violations.iter().all(|v| matches!(v.kind, "flat-cell" | "inverted-cell")) {
+                ctx.stats.bump("c15.state_not_valid_at_its_guarantee");
+                return;
+            }
         }
         ctx.stats.evaluations += 1;
         let kind = ctx.oprec.op.kind();
